@@ -479,3 +479,183 @@ Proof.
   intros. pose proof (lorem_text_spec lang minw maxw common s) as H.
   destruct (lorem_text lang minw maxw common s); simpl in *; auto. tauto.
 Qed.
+
+(* ---------------------------------------------------------------- the paragraph as a list of WORDS *)
+(* The text is the join, by single blanks, of tokens: the entries in order, the first of a sentence capitalised, commas
+   and sentence ends attached to their entry.  (For vocabularies whose entries contain no blank -- latin, spanish --
+   the tokens are the maximal blank-free runs of the text: see tokens_no_blank.) *)
+Fixpoint attach_last (l : list str) (e : str) : list str :=
+  match l with
+  | [] => []
+  | [x] => [x ++ e]
+  | x :: r => x :: attach_last r e
+  end.
+Definition sent_tokens (p : sent) : list str := attach_last (cap_head (fst p)) (snd p).
+Definition para_tokens (l : list sent) : list str := concat (map sent_tokens l).
+
+Lemma attach_last_length : forall l e, length (attach_last l e) = length l.
+Proof. induction l as [|x [|y r] IH]; intros e; simpl in *; auto. Qed.
+
+Lemma join_attach_last : forall sep l e, l <> [] -> join sep (attach_last l e) = join sep l ++ e.
+Proof.
+  intros sep. induction l as [|x [|y r] IH]; intros e H; [contradiction|reflexivity|].
+  change (attach_last (x :: y :: r) e) with (x :: attach_last (y :: r) e).
+  assert (Hne : attach_last (y :: r) e <> []).
+  { intro E. apply (f_equal (@length str)) in E. rewrite attach_last_length in E. discriminate. }
+  destruct (attach_last (y :: r) e) as [|z t] eqn:Ea; [contradiction|].
+  change (join sep (x :: z :: t)) with (x ++ sep ++ join sep (z :: t)). rewrite <- Ea.
+  rewrite IH by discriminate. change (join sep (x :: y :: r)) with (x ++ sep ++ join sep (y :: r)).
+  rewrite <- !app_assoc. reflexivity.
+Qed.
+
+Lemma join_app2 : forall sep (l1 l2 : list str), l1 <> [] -> l2 <> [] ->
+  join sep (l1 ++ l2) = join sep l1 ++ sep ++ join sep l2.
+Proof.
+  intros sep. induction l1 as [|x [|y r] IH]; intros l2 H1 H2; [contradiction| |].
+  - destruct l2 as [|z t]; [contradiction|]. reflexivity.
+  - change ((x :: y :: r) ++ l2) with (x :: (y :: r) ++ l2).
+    change (join sep (x :: (y :: r) ++ l2)) with (x ++ sep ++ join sep ((y :: r) ++ l2)).
+    rewrite IH by (try discriminate; assumption).
+    change (join sep (x :: y :: r)) with (x ++ sep ++ join sep (y :: r)). rewrite <- !app_assoc. reflexivity.
+Qed.
+
+Lemma join_concat : forall sep (ls : list (list str)), Forall (fun l => l <> []) ls ->
+  join sep (map (join sep) ls) = join sep (concat ls).
+Proof.
+  intros sep. induction ls as [|l ls IH]; intros H; [reflexivity|].
+  inversion H as [|? ? Hl Hls]; subst. destruct ls as [|l2 ls2].
+  - simpl. rewrite app_nil_r. reflexivity.
+  - change (map (join sep) (l :: l2 :: ls2)) with (join sep l :: map (join sep) (l2 :: ls2)).
+    change (join sep (join sep l :: map (join sep) (l2 :: ls2)))
+      with (join sep l ++ sep ++ join sep (map (join sep) (l2 :: ls2))).
+    rewrite (IH Hls). change (concat (l :: l2 :: ls2)) with (l ++ concat (l2 :: ls2)).
+    rewrite join_app2; [reflexivity|exact Hl|].
+    inversion Hls; subst. simpl. destruct l2; [contradiction|discriminate].
+Qed.
+
+Lemma sent_tokens_nonempty : forall p, fst p <> [] -> sent_tokens p <> [].
+Proof.
+  intros [ws e] H. simpl in H. unfold sent_tokens. intro E. apply (f_equal (@length str)) in E.
+  rewrite attach_last_length in E. destruct ws; [contradiction|discriminate].
+Qed.
+
+Lemma sent_text_tokens : forall p, fst p <> [] -> sent_text p = join [c_space] (sent_tokens p).
+Proof.
+  intros [ws e] H. simpl in H. unfold sent_text, sent_tokens. cbn [fst snd].
+  rewrite join_attach_last; [reflexivity|]. destruct ws; [contradiction|discriminate].
+Qed.
+
+Theorem para_text_tokens : forall sents, Forall (fun p => fst p <> []) sents ->
+  para_text sents = join [c_space] (para_tokens sents) /\ zlen (para_tokens sents) = sent_count sents.
+Proof.
+  intros sents H. split.
+  - unfold para_text, para_tokens. rewrite <- join_concat.
+    + f_equal. rewrite map_map. apply map_ext_in. intros p Hp. rewrite Forall_forall in H. apply sent_text_tokens. auto.
+    + apply Forall_map. eapply Forall_impl; [|exact H]. intros p Hp. apply sent_tokens_nonempty. exact Hp.
+  - unfold para_tokens. clear H. induction sents as [|[ws e] l IH]; [reflexivity|].
+    cbn [map concat sent_count fold_right fst]. rewrite zlen_app. fold (sent_count l). rewrite IH.
+    unfold sent_tokens. cbn [fst snd]. unfold zlen. rewrite attach_last_length.
+    destruct ws; reflexivity.
+Qed.
+
+(* a word of the text: a vocabulary entry w, as it is or capitalised, then an optional comma, then an optional
+   sentence end *)
+Definition token_ok (voc : list str) (tok : str) : Prop :=
+  exists w base d1 d2, In w voc /\ (base = w \/ base = cap w) /\ (d1 = [] \/ d1 = [c_comma]) /\
+                       (d2 = [] \/ exists c, d2 = [c] /\ In c lorem_sentence_ends) /\ tok = base ++ d1 ++ d2.
+
+Lemma cap_app : forall w x, good_word w = true -> cap (w ++ x) = cap w ++ x.
+Proof.
+  intros [|c r] x H; [simpl in H; discriminate|]. unfold cap, capitalize. cbn [good_word] in H. cbn [app].
+  destruct (assoc_N c lorem_cap_first); [|discriminate]. rewrite app_assoc. reflexivity.
+Qed.
+
+Lemma sent_tokens_ok : forall voc p, Forall (fun w => good_word w = true) voc -> sent_ok voc p ->
+  Forall (token_ok voc) (sent_tokens p).
+Proof.
+  intros voc [ws e] Hgood [[ws0 [Hdec [Hin _]]] [_ [c [He Hc]]]]. cbn [fst snd] in *. subst e.
+  (* before the sentence end is attached: entry, as it is or capitalised, optional comma *)
+  set (P0 := fun x : str => exists w base d1, In w voc /\ (base = w \/ base = cap w) /\ (d1 = [] \/ d1 = [c_comma]) /\ x = base ++ d1).
+  assert (Hrest : forall l l0, Forall2 decorated l l0 -> Forall (fun w => In w voc) l0 -> Forall P0 l).
+  { intros l l0 H. induction H as [|a b l l0 Hab _ IH]; intros Hi; [constructor|].
+    inversion Hi; subst. constructor; [|apply IH; assumption].
+    exists b, b. destruct Hab as [->| ->]; [exists []|exists [c_comma]]; rewrite ?app_nil_r; auto. }
+  assert (H0 : Forall P0 (cap_head ws)).
+  { destruct Hdec as [|a b l l0 Hab Hl]; [constructor|]. cbn [cap_head].
+    inversion Hin as [|? ? Hb Hl0]; subst. constructor; [|eapply Hrest; eassumption].
+    assert (Hgb : good_word b = true) by (rewrite Forall_forall in Hgood; auto).
+    exists b, (cap b). destruct Hab as [->| ->].
+    - exists []. rewrite app_nil_r. auto.
+    - exists [c_comma]. rewrite (cap_app b _ Hgb). auto. }
+  unfold sent_tokens. cbn [fst snd]. clear - H0 Hc.
+  induction (cap_head ws) as [|x [|y r] IH]; [constructor| |].
+  - inversion H0 as [|? ? Hx _]; subst. constructor; [|constructor].
+    destruct Hx as [w [base [d1 [H1 [H2 [H3 ->]]]]]]. exists w, base, d1, [c].
+    rewrite <- app_assoc. repeat split; auto. right. exists c. auto.
+  - inversion H0 as [|? ? Hx Hr]; subst.
+    change (attach_last (x :: y :: r) [c]) with (x :: attach_last (y :: r) [c]). constructor; [|apply IH; exact Hr].
+    destruct Hx as [w [base [d1 [H1 [H2 [H3 ->]]]]]]. exists w, base, d1, []. rewrite app_nil_r. repeat split; auto.
+Qed.
+
+(* EXACTLY word_count words *)
+Theorem paragraph_tokens : forall db wc common t, db_ok db = true -> is_paragraph db wc common t ->
+  exists tokens, t = join [c_space] tokens /\ zlen tokens = wc /\ Forall (token_ok (db_entries db)) tokens.
+Proof.
+  intros db wc common t Hdb [sents [Ht [Hc [Hok _]]]].
+  assert (Hne : Forall (fun p : sent => fst p <> []) sents).
+  { eapply Forall_impl; [|exact Hok]. intros p [_ [H _]]. exact H. }
+  destruct (para_text_tokens sents Hne) as [H1 H2].
+  exists (para_tokens sents). split; [congruence|]. split; [congruence|].
+  assert (Hgood : Forall (fun w => good_word w = true) (db_entries db)).
+  { unfold db_ok in Hdb. apply andb_prop in Hdb. destruct Hdb as [Hdb Hcm]. apply andb_prop in Hdb. destruct Hdb as [Hg _].
+    unfold db_entries, db_common. apply Forall_app. split; [|apply forallb_good; exact Hg].
+    destruct (fst db); [|constructor]. apply andb_prop in Hcm. destruct Hcm as [Hcg _]. apply forallb_good. exact Hcg. }
+  unfold para_tokens. clear - Hok Hgood. induction Hok as [|p l Hp _ IH]; [constructor|].
+  cbn [map concat]. apply Forall_app. split; [apply sent_tokens_ok; assumption|exact IH].
+Qed.
+
+(* vocabularies whose entries contain no blank (latin, spanish; not russian): no word of the text contains a blank, so
+   the words ARE the maximal blank-free runs of the text *)
+Definition no_blank (w : str) : bool := negb (existsb (N.eqb c_space) w).
+Definition blank_free (db : vocabulary) : bool := forallb no_blank (db_entries db).
+
+Lemma no_blank_in : forall w, no_blank w = true -> ~ In c_space w.
+Proof.
+  intros w H Hin. unfold no_blank in H. apply negb_true_iff in H.
+  assert (existsb (N.eqb c_space) w = true) by (apply existsb_exists; exists c_space; split; [exact Hin|apply N.eqb_refl]).
+  congruence.
+Qed.
+
+Lemma cap_table_no_blank : forallb (fun kv => no_blank (snd kv)) lorem_cap_first = true.
+Proof. vm_compute. reflexivity. Qed.
+Lemma ends_no_blank : no_blank lorem_sentence_ends = true.
+Proof. vm_compute. reflexivity. Qed.
+
+Lemma assoc_N_in : forall A k (l : list (N * A)) v, assoc_N k l = Some v -> In (k, v) l.
+Proof.
+  intros A k l v. induction l as [|[k' v'] l IH]; simpl; [discriminate|].
+  destruct (k =? k')%N eqn:E; intros H.
+  - inversion H; subst. apply N.eqb_eq in E. subst. left. reflexivity.
+  - right. apply IH. exact H.
+Qed.
+
+Lemma cap_no_blank : forall w, ~ In c_space w -> ~ In c_space (cap w).
+Proof.
+  intros [|c r] H; [exact H|]. unfold cap, capitalize.
+  destruct (assoc_N c lorem_cap_first) as [u|] eqn:E; [|exact H].
+  intro Hin. apply in_app_or in Hin. destruct Hin as [Hu|Hr]; [|apply H; right; exact Hr].
+  apply assoc_N_in in E. pose proof cap_table_no_blank as Ht. rewrite forallb_forall in Ht.
+  specialize (Ht _ E). cbn [snd] in Ht. exact (no_blank_in u Ht Hu).
+Qed.
+
+Theorem token_no_blank : forall db tok, blank_free db = true -> token_ok (db_entries db) tok -> ~ In c_space tok.
+Proof.
+  intros db tok Hb [w [base [d1 [d2 [Hw [Hbase [Hd1 [Hd2 ->]]]]]]]].
+  unfold blank_free in Hb. rewrite forallb_forall in Hb. pose proof (no_blank_in w (Hb w Hw)) as Hnw.
+  intro Hin. apply in_app_or in Hin. destruct Hin as [Hin|Hin].
+  - destruct Hbase as [->| ->]; [exact (Hnw Hin)|exact (cap_no_blank w Hnw Hin)].
+  - apply in_app_or in Hin. destruct Hin as [Hin|Hin].
+    + destruct Hd1 as [->| ->]; [destruct Hin|]. destruct Hin as [E|[]]. discriminate.
+    + destruct Hd2 as [->|[c [-> Hc]]]; [destruct Hin|]. destruct Hin as [E|[]]. subst c.
+      exact (no_blank_in _ ends_no_blank Hc).
+Qed.
